@@ -374,6 +374,17 @@ func checkC04(c *Ctx) {
 		pinned = append(pinned, []string{"g = func() {1}", "K = 1", "h = func() {0}", "f = func() {a = [g(), K]; " + redef + "; h(); a}", "println(catch(f()))", "println(catch(f()))", "println(catch(f()), g())"})
 		pinned = append(pinned, []string{"g = func() {1}", "K = 1", "h = func(x) {x}", "f = func(x) {a = [g(), K]; " + redef + "; [h(x), a]}", "w = func(x) {f(x)}", "println(catch(w(1)))", "println(catch(w(1)))"})
 	}
+	//  (viii) macro bodies are evaluated by an evaluator of their own: what it memoizes and what the program memoizes stay apart,
+	//      and two expansions of one macro do not share results
+	for _, in := range [][]string{
+		{"m = macro(X) {id = func() {X}; id()}", "println(m(1 + 1))", "println(m(5 * 5))", "println(m(1 + 1), m(7))"},
+		{"m = macro(X) {id = func(q) {[q, X]}; id(1)[1]}", "println(m(2))", "println(m(3))", "f = func() {m(4)}; println(f(), m(5))"},
+		{"h = func() {1}", "f = func() {h()}", "println(f())", `m = macro() {h = func() {2}; f = func() {h()}; r = f(); if r == 2 {quote("body-h")} else {quote("program-h")}}`, "println(m())", "println(f())", "println(m(), f())"},
+		{"g = func(x) {x * 2}", "println(g(3))", `m = macro(a) {g = func(x) {x * 3}; r = g(3); if r == 9 {quote(unquote(a) + 9)} else {quote(unquote(a) + 6)}}`, "println(m(0))", "println(g(3), m(1))"},
+		{"K = 1", "f = func() {K}", "println(f())", `m = macro() {K = 2; f = func() {K}; if f() == 2 {quote("body-K")} else {quote("program-K")}}`, "println(m())", "println(f(), m())"},
+	} {
+		pinned = append(pinned, in)
+	}
 	//  (vii) an evaluation that ran out of time: the deadline error absorbed by catch() is not a result
 	for _, f := range []string{"f = func(n) {catch(slow(n)).err}", "f = func(n) {r = catch(slow(n)); if r.err {-1} else {r.value}}", "f = func(n) {[catch(slow(n)).err, n]}", "g = func(n) {catch(slow(n)).err}; f = func(n) {g(n)}"} {
 		pinned = append(pinned, []string{"slow = func(n) {s = 0; for i = n {s = s + i}; s}", f, "println(f(2000000)) " + c10ShortMark, "println(f(2000000))", "println(f(2000000), f(10))"})
